@@ -312,6 +312,16 @@ class StmtMixin:
                 rng = self.tmp('range'); e = self.expr(rinit); self.flush(out, i2)
                 out.append(i2 + '%s %s = %s;' % (rt.c, rng, e))
             ix = 'i_L%d_' % (self.loopn + 1); nn = 'n_L%d_' % (self.loopn + 1); name = self.local_name(lv)   # named by loop ordinal: stable under edits elsewhere
+            if lv.get('kind') == 'DecompositionDecl':
+                if lt.kind != 'pair' and lv.get('type', {}).get('desugaredQualType'):
+                    try: lt = self.ty(lv['type']['desugaredQualType'])
+                    except Unsupported: pass
+                if lt.kind != 'pair':
+                    # the element type of an unordered_map<EntityUID, EntityUID> seen through iterator aliases
+                    m_ = re.search(r'pair<const ([\w ]+), ([\w ]+)>', str(lv.get('type', {})))
+                    if m_:
+                        try: lt = self.ty('std::pair<%s, %s>' % (m_.group(1), m_.group(2)))
+                        except Unsupported: pass
             for fn, proto in (('%s_iter_size' % rt.c, 'size_t %s_iter_size(const %s* this_);' % (rt.c, rt.c)),
                               ('%s_iter_get' % rt.c, '%s %s_iter_get(const %s* this_, size_t index);' % (lt.c, rt.c, rt.c))):
                 self.autostubs.setdefault(fn, proto); self.fninfo.setdefault(fn, {'qname': fn, 'stub': True})
@@ -319,7 +329,19 @@ class StmtMixin:
             out.append(i2 + 'for (%s = 0; %s < %s; ++%s)' % (ix, ix, nn, ix))
             out.append(i2 + self.loop_marker())
             out.append(i2 + '{'); i3 = i2 + '  '
-            out.append(i3 + '%s %s = %s_iter_get(%s, %s);' % (lt.c, name, rt.c, self.addr(rng), ix))
+            if lv.get('kind') == 'DecompositionDecl':
+                bs = [b for b in lv.get('inner', []) if b.get('kind') == 'BindingDecl']
+                if len(bs) != 2 or lt.kind != 'pair': raise Unsupported('structured binding over an abstract sequence of %s at %s' % (lt.c, self.where(n)))
+                name = 'el_L%d_' % self.loopn
+                out.append(i3 + '%s %s = %s_iter_get(%s, %s);   /* [%s, %s] */' % (lt.c, name, rt.c, self.addr(rng), ix, bs[0].get('name'), bs[1].get('name')))
+                for b, fld in zip(bs, ('first', 'second')):
+                    self.vars[b['id']] = ('alias', '%s.%s' % (name, fld))
+                    for x in b.get('inner', []):
+                        rd = x.get('referencedDecl', {})
+                        if rd.get('id'): self.vars[rd['id']] = ('alias', '%s.%s' % (name, fld))
+                self.rules['range-for:opaque-sequence(structured binding)'] += 1
+            else:
+                out.append(i3 + '%s %s = %s_iter_get(%s, %s);' % (lt.c, name, rt.c, self.addr(rng), ix))
             self.vars[lv['id']] = ('val', name)
             self.rules['range-for:opaque-sequence'] += 1
             self.range_cleanup.append(None)
